@@ -2279,110 +2279,16 @@ func totalCompare(info *types.Info, e ast.Expr) bool {
 	return a != nil && b != nil && a != b && ((a == ps[0] && b == ps[1]) || (a == ps[1] && b == ps[0]))
 }
 
-// OrderAfterRange decides that the iteration order of the map range rs (a
-// statement of the top-level list of body) cannot reach the function's result:
-// every variable written inside the loop is passed to sort.* before any other
-// use. status: "ok", "fail" (order-dependent use found) or "undecided".
+// OrderAfterRange decides that the iteration order of the map range rs cannot
+// reach the function's result: every variable written inside the loop is
+// passed to sort.* before any other use. status: "ok", "fail" (order-dependent
+// use found) or "undecided". See OrderAfter for the general form.
 func OrderAfterRange(info *types.Info, body *ast.BlockStmt, rs *ast.RangeStmt) (status, reason string) {
-	at := -1
-	for i, s := range body.List {
-		if s == rs {
-			at = i
-		}
+	st, why, _ := OrderAfter(info, body, &MapOrderSite{Stmt: rs, Range: rs, X: rs.X})
+	if st == "returned" {
+		st = "fail"
 	}
-	if at < 0 {
-		return "undecided", "the map range is not a top-level statement of the function"
-	}
-	tainted := map[types.Object]bool{}
-	why := ""
-	ast.Inspect(rs.Body, func(n ast.Node) bool {
-		switch n := n.(type) {
-		case *ast.ReturnStmt:
-			for _, r := range n.Results {
-				if tv, ok := info.Types[r]; !ok || tv.Value == nil {
-					why = "returns a non-constant from inside the map iteration"
-				}
-			}
-		case *ast.AssignStmt:
-			for _, l := range n.Lhs {
-				id, ok := ast.Unparen(l).(*ast.Ident)
-				if !ok {
-					why = "the loop body writes through " + types.ExprString(l)
-					continue
-				}
-				if id.Name == "_" {
-					continue
-				}
-				if o := info.Uses[id]; o != nil && (o.Pos() < rs.Pos() || o.Pos() > rs.End()) {
-					tainted[o] = true
-				}
-			}
-		case *ast.IncDecStmt:
-			why = "the loop body counts with " + types.ExprString(n.X)
-		case *ast.BranchStmt:
-			if n.Tok == token.BREAK || n.Tok == token.GOTO {
-				why = "the loop is left early (" + n.Tok.String() + ")"
-			}
-		}
-		return true
-	})
-	if why != "" {
-		return "undecided", why
-	}
-	sorted := map[types.Object]bool{}
-	for _, st := range body.List[at+1:] {
-		if es, ok := st.(*ast.ExprStmt); ok {
-			if call, ok := es.X.(*ast.CallExpr); ok && len(call.Args) >= 1 {
-				if fn := StaticCallee(info, call); isSortFunc(fn) {
-					a := ast.Unparen(call.Args[0])
-					if c, ok := a.(*ast.CallExpr); ok && len(c.Args) == 1 { // sort.Sort(sort.StringSlice(v))
-						if tv, ok := info.Types[c.Fun]; ok && tv.IsType() {
-							a = ast.Unparen(c.Args[0])
-						}
-					}
-					if id, ok := a.(*ast.Ident); ok {
-						if o := info.Uses[id]; o != nil && tainted[o] && !sorted[o] {
-							switch fn.Name() {
-							case "Slice", "SliceStable":
-								fl, ok := ast.Unparen(call.Args[1]).(*ast.FuncLit)
-								if fn.Pkg().Path() != "sort" || !ok || !totalLess(info, fl, o) {
-									return "undecided", "cannot decide that the comparison passed to " + fn.FullName() + " is a total order on the elements"
-								}
-							case "SortFunc", "SortStableFunc":
-								if len(call.Args) != 2 || !totalCompare(info, call.Args[1]) {
-									return "undecided", "cannot decide that the comparison passed to " + fn.FullName() + " is a total order on the elements"
-								}
-							}
-							sorted[o] = true
-							continue
-						}
-					}
-				}
-			}
-		}
-		for o := range tainted {
-			if sorted[o] || !mentions(info, st, o) {
-				continue
-			}
-			// alias: w := v / w = v
-			if as, ok := st.(*ast.AssignStmt); ok && len(as.Lhs) == 1 && len(as.Rhs) == 1 {
-				if rid, ok := ast.Unparen(as.Rhs[0]).(*ast.Ident); ok && info.Uses[rid] == o {
-					if lid, ok := ast.Unparen(as.Lhs[0]).(*ast.Ident); ok {
-						lo := info.Defs[lid]
-						if lo == nil {
-							lo = info.Uses[lid]
-						}
-						if lo != nil {
-							tainted[lo] = true
-							continue
-						}
-					}
-				}
-			}
-			return "fail", fmt.Sprintf("%s is filled in map-iteration order and is used by `%s` before any sort.* call on it", o.Name(), stmtString(st))
-		}
-	}
-	return "ok", ""
+	return st, why
 }
 
 func stmtString(s ast.Stmt) string {
